@@ -1976,6 +1976,11 @@ func (c ipamClient) releaseByHandle(ctx context.Context, config *IPAMConfig, blo
 					logCtx.Errorf("Error deleting block: %v", err)
 					return err
 				}
+				// Somebody else deleted the block since we read it, so they released the addresses (and
+				// adjusted the handle).  We released nothing, so we must not decrement the handle: it may
+				// already be counting a new allocation made with the same handle in a re-created block.
+				logCtx.Info("Block was deleted by someone else, nothing to release")
+				return nil
 			}
 			logCtx.Info("Successfully deleted empty block")
 		} else {
